@@ -138,6 +138,10 @@ func drawAPICall(t *rapid.T) *APICall {
 	if minArc := math.Abs(c.F[0]) * 1e-5; c.F[2] > 0 && c.F[2] < minArc {
 		c.F[2] = minArc
 	}
+	// ... and a single point with a round end becomes an ellipse of pi*sqrt(radius) vertices
+	if (c.ET == 4 || c.JT == 3) && math.Abs(c.F[0]) > 1e9 {
+		c.F[0] = math.Copysign(1e9, c.F[0])
+	}
 	c.I = rapid.SampledFrom([]int{0, 1, 2, 3, 7, 64, -5, 1000}).Draw(t, "i")
 	c.Bo = [2]bool{rapid.Bool().Draw(t, "b0"), rapid.Bool().Draw(t, "b1")}
 	c.Q = P{X: rapid.Int64Range(-R, R).Draw(t, "qx"), Y: rapid.Int64Range(-R, R).Draw(t, "qy")}
